@@ -17,12 +17,18 @@ modes:  unparse   -- every module is replaced by ast.unparse(ast.parse(src))
         fstring   -- '...%s' % x becomes an f-string where that is safe
         swap      -- adjacent independent assignments with call-free
                      right-hand sides change places
+        compare-flip -- a == b / a != b with plain operands are written the
+                     other way round
+        unpack-split -- a, b = x, y becomes two assignments where that is
+                     safe
+        strip-docstrings -- function and class docstrings are removed
 """
 import ast
 import os
 
 MODES = ("unparse", "rename", "rename-some-1", "if-invert", "extract-return",
-         "noop-first", "swap", "fstring", "annotate")
+         "noop-first", "swap", "fstring", "annotate", "compare-flip",
+         "unpack-split", "strip-docstrings")
 
 
 class Renamer(ast.NodeTransformer):
@@ -254,6 +260,75 @@ class Annotator(ast.NodeTransformer):
         return node
 
 
+class CompareFlipper(ast.NodeTransformer):
+    """a == b -> b == a (also !=) where both sides are plain reads"""
+
+    @staticmethod
+    def _plain(e):
+        return all(isinstance(n, (ast.Name, ast.Attribute, ast.Constant,
+                                  ast.Load, ast.Subscript, ast.Tuple,
+                                  ast.UnaryOp, ast.USub))
+                   for n in ast.walk(e))
+
+    def visit_Compare(self, node):
+        self.generic_visit(node)
+        if len(node.ops) == 1 and isinstance(node.ops[0], (ast.Eq, ast.NotEq)) \
+                and self._plain(node.left) and \
+                self._plain(node.comparators[0]):
+            return ast.Compare(node.comparators[0], node.ops, [node.left])
+        return node
+
+
+class UnpackSplitter(ast.NodeTransformer):
+    """a, b = x, y -> a = x; b = y when no target name occurs in a value
+    and the values are plain reads"""
+
+    def _split(self, blk):
+        out = []
+        for st in blk:
+            if isinstance(st, ast.Assign) and len(st.targets) == 1 and \
+                    isinstance(st.targets[0], ast.Tuple) and \
+                    isinstance(st.value, ast.Tuple) and \
+                    len(st.targets[0].elts) == len(st.value.elts) and \
+                    all(isinstance(t, ast.Name)
+                        for t in st.targets[0].elts) and \
+                    all(CompareFlipper._plain(v) for v in st.value.elts):
+                names = {t.id for t in st.targets[0].elts}
+                used = {n.id for v in st.value.elts for n in ast.walk(v)
+                        if isinstance(n, ast.Name)}
+                if not (names & used):
+                    for t, v in zip(st.targets[0].elts, st.value.elts):
+                        out.append(ast.Assign([t], v))
+                    continue
+            out.append(st)
+        return out
+
+    def generic_visit(self, node):
+        super().generic_visit(node)
+        for fld in ("body", "orelse", "finalbody"):
+            blk = getattr(node, fld, None)
+            if isinstance(blk, list) and blk and isinstance(blk[0], ast.stmt):
+                setattr(node, fld, self._split(blk))
+        return node
+
+
+class DocstringStripper(ast.NodeTransformer):
+    """function and class docstrings are removed (a lone docstring becomes
+    'pass')"""
+
+    def _strip(self, node):
+        self.generic_visit(node)
+        b = node.body
+        if b and isinstance(b[0], ast.Expr) and isinstance(
+                b[0].value, ast.Constant) and isinstance(
+                    b[0].value.value, str):
+            node.body = b[1:] or [ast.Pass()]
+        return node
+
+    visit_FunctionDef = _strip
+    visit_ClassDef = _strip
+
+
 def rewrite(mode, tmp):
     root = os.path.join(tmp, "src", "chameleon")
     for dp, dn, fns in os.walk(root):
@@ -278,6 +353,13 @@ def rewrite(mode, tmp):
                 tree = ast.fix_missing_locations(FStringer().visit(tree))
             elif mode == "if-invert":
                 tree = ast.fix_missing_locations(IfInverter().visit(tree))
+            elif mode == "compare-flip":
+                tree = ast.fix_missing_locations(CompareFlipper().visit(tree))
+            elif mode == "unpack-split":
+                tree = ast.fix_missing_locations(UnpackSplitter().visit(tree))
+            elif mode == "strip-docstrings":
+                tree = ast.fix_missing_locations(
+                    DocstringStripper().visit(tree))
             elif mode.startswith("rename-some"):
                 import random
                 r = Renamer()
